@@ -84,6 +84,7 @@ func withStrings(class, text string) J {
 
 func main() {
 	c := core.New("C10")
+	c.ReplayFallback()
 	swagger := c.BuildSwagger()
 	rng := rand.New(rand.NewSource(c.Seed))
 	var cases []docCase
